@@ -87,7 +87,11 @@ structure VmCase where
 def pVmCase : Parser VmCase := do
   let mode ← tok
   let prog ← bytes
-  let pc ← nat
+  -- `<pc>` or `h<pc>`: the public `halt` flag of the initial Vm is set
+  let pcTok ← tok
+  let (halt0, pc) ← (match pcTok.toList with
+    | 'h' :: cs => (match (String.ofList cs).toNat? with | some n => pure (true, n) | none => failure)
+    | _ => (match pcTok.toNat? with | some n => pure (false, n) | none => failure) : Parser (Bool × Nat))
   let st ← words
   let mem ← words
   let pm ← listOf words
@@ -115,7 +119,7 @@ def pVmCase : Parser VmCase := do
       | none => .badSig,
     maxBreadth := maxB }
   pure { mode := mode, prog := prog,
-         vm := { pc := pc, stack := st, memory := mem, parentMemory := pm, halt := false, rep := rep }, env := env }
+         vm := { pc := pc, stack := st, memory := mem, parentMemory := pm, halt := halt0, rep := rep }, env := env }
 
 def runVmCase (c : VmCase) : String :=
   match decode c.prog with
